@@ -861,6 +861,38 @@ func leLen(v, base ssa.Value, b *ssa.BasicBlock, inProgress map[ssa.Value]bool, 
 	if k, ok := constInt(v); ok {
 		return k == 0 || lenAtLeast(b, base, k)
 	}
+	// len(a) <= len(base) when base was made with a length that is len(a) plus lengths / non-negative constants
+	if c, ok := v.(*ssa.Call); ok && isLenOf(c, nil) {
+		if mk, ok := stripConv(base).(*ssa.MakeSlice); ok {
+			var terms []ssa.Value
+			var flat func(x ssa.Value)
+			flat = func(x ssa.Value) {
+				if bo, ok := x.(*ssa.BinOp); ok && bo.Op == token.ADD {
+					flat(bo.X)
+					flat(bo.Y)
+					return
+				}
+				terms = append(terms, x)
+			}
+			flat(mk.Len)
+			has, nonneg := false, true
+			for _, t := range terms {
+				if tc, ok := t.(*ssa.Call); ok && isLenOf(tc, nil) {
+					if sameVal(tc, c) {
+						has = true
+					}
+					continue
+				}
+				if k, ok := constInt(t); ok && k >= 0 {
+					continue
+				}
+				nonneg = false
+			}
+			if has && nonneg {
+				return true
+			}
+		}
+	}
 	switch x := v.(type) {
 	case *ssa.Phi:
 		if inProgress[x] {
